@@ -178,10 +178,47 @@ def run(check):
                         return
     file_only(check)
     generate_config(check)
+    if not check.violations:
+        existing_output(check)
     check.exhaustive = True
     check.extra["exhaustive_scope"] = "7 settings x {option absent, present} x {key absent, present} x {-c, ancestor search}"
     check.assumptions += ["TOML (de)serialisation by the `toml` crate and option parsing by `clap` are external; they are exercised through the real binary",
                           "kotlin/scala module_name are not used by any printer; they are observed only in the TOML written by -g"]
+
+
+def existing_output(check):
+    """the effective setting must show in the file the binary leaves behind also when the destination already holds the output
+    of an earlier run made under the *other* source of the setting (typeshare.toml value vs an option of the same length)"""
+    pairs = [("swift", "prefix", "--swift-prefix", "Toml", "Clap"), ("kotlin", "prefix", "--kotlin-prefix", "Fk", "Ok"),
+             ("kotlin", "package", "--java-package", "com.file.pkg", "com.clap.pkg"), ("scala", "package", "--scala-package", "org.file.x", "org.clap.y"),
+             ("go", "package", "--go-package", "filepkg", "clappkg")]
+    for L, key, flag, file_val, cli_val in pairs:
+        with Scratch() as sc:
+            sc.write("ws/proj/src/lib.rs", SRC)
+            sc.write("ws/typeshare.toml", toml_text({}, {L: {key: file_val}}))
+            out = sc.path("ws/out." + EXT[L])
+            base = ["--lang", L, "-o", out] + [a for a in lang_args(L) if not (L in ("kotlin", "scala", "go") and key == "package")]
+            if key == "package":
+                base = ["--lang", L, "-o", out]
+            r1 = run_cli(base + [sc.path("ws/proj/src")], cwd=sc.path("ws/proj"))
+            first = open(out, encoding="utf-8").read() if r1["rc"] == 0 and os.path.exists(out) else None
+            r2 = run_cli(base + [flag, cli_val, sc.path("ws/proj/src")], cwd=sc.path("ws/proj"))
+            second = open(out, encoding="utf-8").read() if r2["rc"] == 0 and os.path.exists(out) else None
+            fresh = sc.path("ws/fresh." + EXT[L])
+            r3 = run_cli(["--lang", L, "-o", fresh] + base[4:] + [flag, cli_val, sc.path("ws/proj/src")], cwd=sc.path("ws/proj"))
+            third = open(fresh, encoding="utf-8").read() if r3["rc"] == 0 and os.path.exists(fresh) else None
+            check.saw(("existing-output", L, key), nontrivial=True)
+            check.count("existing-output")
+            if first is None or third is None:
+                continue
+            if second != third or (file_val in (second or "") and file_val not in third):
+                check.violation("%s: with typeshare.toml %s = %r an earlier run left its output in the destination; the run with %s %s "
+                                "leaves %s, a fresh destination gets the option's value"
+                                % (L, key, file_val, flag, cli_val, "the file's value in the output" if second and file_val in second else "something else"),
+                                case={"lang": L, "key": key, "file": file_val, "option": [flag, cli_val]},
+                                impl={"after_first_run": first[-1200:], "after_second_run": (second or "")[-1200:], "fresh": third[-1200:]},
+                                failing_input=True)
+                return
 
 
 def file_only(check):
